@@ -433,6 +433,20 @@ def make_code(name, qs, vals):
     return f"gates.{name}(*{list(qs)}, *{[float(v) for v in vals]})"
 
 
+def gate_code(g):
+    """python expression rebuilding a real gate object."""
+    name = g.__class__.__name__
+    ps = []
+    for p_ in g.parameters:
+        a = np.asarray(p_)
+        ps.append(repr(float(a.real)) if a.ndim == 0 else f"np.array({a.tolist()})")
+    if name == "Unitary":
+        return f"gates.Unitary({ps[0]}, *{list(g.target_qubits)})" + (f".controlled_by(*{list(g.control_qubits)})" if g.is_controlled_by else "")
+    if g.is_controlled_by:
+        return f"gates.{name}(*{list(g.target_qubits)}, {', '.join(ps)}).controlled_by(*{list(g.control_qubits)})".replace(", )", ")")
+    return f"gates.{name}(*{list(g.qubits)}, {', '.join(ps)})".replace(", )", ")")
+
+
 def haar(rng, d):
     """seeded Haar unitary (QR of a Ginibre matrix with phase fix)."""
     r = np.random.default_rng(rng.getrandbits(32))
@@ -804,7 +818,9 @@ def unroll_correspondence(ctx, shapes):
             spec = all(g.__class__.__name__ == "M" or (len(g.qubits) <= 2 and is_native(g, ns2)) for g in gl)
             if str(spec).lower() != a:
                 ctx.fail("assert_decomposition", f"assert_decomposition gives {a} on {names} with natives {flag_names(ns2)}",
-                         REPLAY_PRE + "raise SystemExit(1)  # see expected/observed", expected=str(spec), observed=a,
+                         REPLAY_PRE + f"c = Circuit({max(max(g.qubits) for g in gl) + 1})\n" + "".join(f"c.add({gate_code(g)})\n" for g in gl)
+                         + f"ns = natives({flag_names(ns2)})\ntry:\n    assert_decomposition(c, ns); got = True\nexcept Exception:\n    got = False\nassert got == {spec}\n",
+                         expected=str(spec), observed=a,
                          broken=["C10_corr_assert"])
     ctx.ob("C10_corr_assert", bad == 0, "correspondence", f"{bad} disagreements" if bad else "")
 
